@@ -13,16 +13,17 @@ def typecheck(mod, pkg):
     return "" if r.returncode == 0 else (r.stderr or r.stdout)[-800:]
 
 
-def run(prop, spec, tier, scratch, known, vcheck):
-    t0 = time.time()
-    inconclusive, lines = [], []
+def materialise(prop, spec, scratch):
+    """Builds the compiler from /repo, generates Go for the catalogue programs of
+    spec["gen_groups"] into a scratch module and prepares one harness overlay per
+    generated package. Returns (groups, typecheck violations, inconclusive)."""
+    inconclusive, tc_violations, groups = [], [], []
     exe = genpipe.build_compiler(scratch)
     mod = genpipe.go_module(scratch)
     cat = os.path.join(scratch, "catalogue")
     os.makedirs(cat)
     for f in glob.glob(os.path.join(VERIF, "catalogue", "c02_*.frugal")):
         open(os.path.join(cat, os.path.basename(f)), "w").write(open(f).read())
-    jobs, tc_violations = [], []
     for g in spec["gen_groups"]:
         for prog in [g["program"]] + g.get("includes", []):
             rc, msg = genpipe.run_frugal(exe, os.path.join(cat, prog + ".frugal"), "go:package_prefix=verifgen/", mod)
@@ -38,12 +39,21 @@ def run(prop, spec, tier, scratch, known, vcheck):
         genpipe.sync_rt(VERIF, hdir, g["pkg"])
         for f in glob.glob(os.path.join(VERIF, "harness", "gen_" + g["pkg"], "*.go")):
             open(os.path.join(hdir, os.path.basename(f)), "w").write(open(f).read())
-        group = {"dir": os.path.join(mod, g["pkg"]), "overlay": hdir}
-        for e in g["entries"]:
+        groups.append({"dir": os.path.join(mod, g["pkg"]), "overlay": hdir, "entries": g["entries"], "program": g["program"]})
+    return groups, tc_violations, inconclusive
+
+
+def run(prop, spec, tier, scratch, known, vcheck):
+    t0 = time.time()
+    lines = []
+    groups, tc_violations, inconclusive = materialise(prop, spec, scratch)
+    jobs = []
+    for group in groups:
+        for e in group["entries"]:
             if tier not in e.get("tiers", ["quick", "thorough"]):
                 continue
             jobs.append({"group": group, "entry": e, "params": e.get(tier, {}).get("params", [0]), "bound": e.get(tier, {}).get("bound", 0),
-                         "flags": e.get("flags", []) + e.get(tier, {}).get("flags", []), "prog": g["program"]})
+                         "flags": e.get("flags", []) + e.get(tier, {}).get("flags", []), "prog": group["program"]})
 
     def run_job(job):
         g = job["group"]
